@@ -240,7 +240,9 @@ type vanishCase struct {
 	K      int          `json:"keepalive_s"`
 	State  string       `json:"state"` // model state when the client falls silent
 	D      int          `json:"sleep_s"`
-	Script gwsim.Script `json:"script"`
+	// Unreachable: after its last packet the client's address is unreachable (the gateway's writes to it fail).
+	Unreachable bool         `json:"unreachable,omitempty"`
+	Script      gwsim.Script `json:"script"`
 }
 
 func genVanish(t *rapid.T) vanishCase {
@@ -295,7 +297,12 @@ func genVanish(t *rapid.T) vanishCase {
 			}
 		}
 	}
-	// the client is silent from here on; observe for longer than any bound
+	// the client is silent from here on; in a third of the cases its address is also unreachable
+	// from now on (writes to it fail). Observe for longer than any bound.
+	if len(sc.Steps) > 0 && rapid.IntRange(0, 2).Draw(t, "unreachable") == 0 {
+		c.Unreachable = true
+		add(gwsim.Step{K: "snfail"})
+	}
 	bound := vanishBound(c)
 	sc.TailMs = bound/1e6 + K*3 + 2000
 	return c
@@ -318,13 +325,16 @@ func vanishBound(c vanishCase) int64 {
 func TestC34(t *testing.T) {
 	vf.Check(t, vf.Prop[vanishCase]{
 		ID: "C34", Name: "vanished-clients-reaped", Bubble: true,
-		Rule: "a session against a broker that enforces time (closes a connection without CONNECT after 5 s and one silent for 1.5 x keep-alive); session prefix ending in: nothing sent at all / mid connect exchange (broker silent, or WILLTOPIC outstanding) / active after 0-3 pings / asleep with D<=K, D>K, D>>K (up to 50 K) / woken early and asleep again / woken early and reconnected (with or without further activity); then the client is silent forever. K in {1,3,10,60} s. Non-trivial = the silence point lies after a sleep; distinct by script.",
+		Rule: "a session against a broker that enforces time (closes a connection without CONNECT after 5 s and one silent for 1.5 x keep-alive); session prefix ending in: nothing sent at all / mid connect exchange (broker silent, or WILLTOPIC outstanding) / active after 0-3 pings / asleep with D<=K, D>K, D>>K (up to 50 K) / woken early and asleep again / woken early and reconnected (with or without further activity); then the client is silent forever and, in a third of the cases, unreachable as well (every write to it fails). K in {1,3,10,60} s. Non-trivial = the silence point lies after a sleep; distinct by script.",
 		Assumptions: []string{"bounds measured from the client's last packet: 5 s + poll before a CONNECT was accepted; 1.5 K + K slack + poll when active ('about 1.5x' read as <= 2.5 K); announced duration + 1.5 K + K slack + poll when asleep (from the last DISCONNECT(duration) or wake-up)",
 			"the observation window is the bound plus 3 K + 2 s of virtual time; 'never ends' is observed as 'not ended by then'"},
 		Gen: genVanish,
 		Run: func(c vanishCase) (r vf.Result) {
 			tr := gwsim.Run(c.Script)
 			r.Label("state=" + c.State)
+			if c.Unreachable {
+				r.Label("client-unreachable")
+			}
 			r.NonTrivial = c.D > 0
 			if c.D > c.K {
 				r.Label("D>K")
